@@ -77,3 +77,19 @@ Definition walk_stack_gen (p : profile) (a : arch) (tail : tail_fn) (os : Z) (me
     (cfi_walk : frame -> option frame -> list Z -> option (regs * list Z)) (instr_valid : Z -> bool)
     (fuel : nat) (r : regs) (v : validity) : outcome (list frame) :=
   walk_stack_t generated_code p a os mem module_at max_module_addr cfi_walk instr_valid tail lib_walk_stop fuel r v.
+
+(* ---- second pass of round 5: the scan acceptance test and arm64's ptr_auth_strip as the Rust text has them now
+   (Gen/UnwindTail.v; C05/ProofsValid.v proves them equal to the parametric pieces of Model.v) *)
+
+(* u64::checked_next_power_of_two: the smallest power of two >= x (1 for x = 0), None when that is 2^64 *)
+Definition checked_next_power_of_two (x : Z) : option Z :=
+  let r := 2 ^ Z.log2_up x in if r <? two64 then Some r else None.
+
+(* arm64.rs ptr_auth_strip, statement by statement as generated, over the real checked_next_power_of_two *)
+Definition arm64_ptr_auth_strip_src : profile -> option (Z * Z) -> Z -> outcome Z :=
+  arm64_ptr_auth_strip_gen checked_next_power_of_two.
+
+(* the generated `<arch>::instruction_seems_valid` front test of each architecture id of the driver *)
+Definition pre_ok_of (archid : Z) : Z -> bool :=
+  if archid =? 0 then x86_instr_pre_ok else if archid =? 1 then amd64_instr_pre_ok else if archid =? 2 then arm_instr_pre_ok
+  else if (archid =? 4) || (archid =? 5) then mips_instr_pre_ok else arm64_instr_pre_ok.
